@@ -133,8 +133,10 @@ fn replay<B: Backend>(rf: &ev::ReplayFile, prop: &'static str, sweep_props: &[&s
 fn aguard_plans(tier: &str) -> Vec<(&'static str, Vec<ACfg>, usize)> {
     let q = tier == "quick";
     vec![
-        ("c16-guards-across-tasks", vec![ACfg { nsubs: 1, max_tasks: 3, only_woken: false, small: false }, ACfg { nsubs: 2, max_tasks: 3, only_woken: true, small: false }], if q { 4 } else { 5 }),
-        ("c16-guards-across-tasks-deep", vec![ACfg { nsubs: 1, max_tasks: 4, only_woken: false, small: true }, ACfg { nsubs: 1, max_tasks: 4, only_woken: true, small: true }], if q { 6 } else { 7 }),
+        ("c16-guards-across-tasks", vec![ACfg { nsubs: 1, max_tasks: 3, only_woken: false, small: false, cancel_focus: false }, ACfg { nsubs: 2, max_tasks: 3, only_woken: true, small: false, cancel_focus: false }], if q { 4 } else { 5 }),
+        // cancelled next() / next_ref() futures whose subscriber lives on
+        ("c16-cancelled-subscriber-futures", vec![ACfg { nsubs: 1, max_tasks: 3, only_woken: false, small: false, cancel_focus: true }], if q { 7 } else { 8 }),
+        ("c16-guards-across-tasks-deep", vec![ACfg { nsubs: 1, max_tasks: 4, only_woken: false, small: true, cancel_focus: false }, ACfg { nsubs: 1, max_tasks: 4, only_woken: true, small: true, cancel_focus: false }], if q { 6 } else { 7 }),
     ]
 }
 
